@@ -8,7 +8,7 @@ From IonV Require Import Base.Wire Base.Utf8 Bin.Bits Bin.BitsP Data.Ion Num.Flo
   Bin.BitEvalAnnP Bin.ReaderTrace Bin.BinReaderInvP Bin.BinReaderP Bin.ReaderTraceP Bin.ReaderTopP
   Bin.ReaderLstP Bin.SpecLim Bin.SpecLimP Bin.SpecLimAppP Bin.BitEvalGenP Bin.SpecAgreeP Bin.BitEvalAnnGenP Bin.SpecAgreeTravP
   Bin.SpecAgreeContP Bin.SpecAgreeTabP Bin.SpecAgreeLstP Bin.SpecAgreeStreamP Bin.Reject Bin.RejectP Bin.RejectVarP Bin.RejectHdrP
-  Bin.RejectFieldP Bin.RejectDecP.
+  Bin.RejectFieldP Bin.RejectDecP Bin.RejectWrapP Bin.RejectWrap2P.
 Import ListNotations.
 Open Scope N_scope.
 Ltac Zify.zify_post_hook ::= Z.div_mod_to_equations.
@@ -250,8 +250,10 @@ Proof.
              ltac:(apply Forall_app; split; assumption) (RS_PRE2 ts tot _ _ _ _ _ _ Rs2 (proj2 Rio2)) Rio2).
     cbn [length] in HM. lia. }
   (* annotation wrappers *)
-  replace (tag / 16 =? 13) with false in Hcov by lia. cbv iota in Hcov. exfalso. clear - Hcov. unfold wrap_code in Hcov.
-  repeat (first [discriminate | match type of Hcov with context [match ?x with _ => _ end] => destruct x end]).
+  replace (tag / 16 =? 13) with false in Hcov by lia. cbv iota in Hcov.
+  apply RAW. intros fuel r1' b1 Hb1 T Hn Hl. unfold HDRF in Elen.
+  exact (raw_rej_wrapper tot Htot ts _ fuel r1' b1 f (stk_top stk) tab ctx tag r0 outer stk len r1 body rest HTC Hb Hbo
+           ltac:(lia) ltac:(lia) ltac:(lia) Elen Etk Hcov Hb1 T Hn Hl).
 Qed.
 
 Lemma rej2_all : forall f, REJ2 f.
